@@ -4,7 +4,7 @@
    Entries that are only fuzzed for crashes (third-party decoders) have no model: the line is "nocrash". *)
 let entry_id = function
   | "ppphdr" -> 1 | "disp" -> 2 | "pppopts" -> 3 | "papreq" -> 4 | "papmsg" -> 5 | "chapchal" -> 6
-  | "chapresp" -> 7 | "echo" -> 8 | "tags" -> 10 | "l2hdr" -> 20 | "l2avp" -> 21 | "l2v3" -> 22
+  | "chapresp" -> 7 | "echo" -> 8 | "rtopts" -> 9 | "papbld" -> 11 | "chapbld" -> 12 | "tags" -> 10 | "l2hdr" -> 20 | "l2avp" -> 21 | "l2v3" -> 22
   | "d6msg" -> 30 | "d6relay" -> 31 | "d6reply" -> 32 | "v6unwrap" -> 33 | "v6txid" -> 34
   | "o82ins" -> 40 | "o82strip" -> 41 | "setopt" -> 42 | "getopt" -> 43
   | "sub82" | "sub82p" -> 50 | "d4parse" -> 51 | "d4msg" -> 52 | "attr80" -> 60
